@@ -78,7 +78,12 @@ def corpus(tier):
               "expect": {"panic": False, "must_compile": True, "stdout_contains": "ARRAY t size=10 = 7 8 12 11 10 13 9 0 92 39"}, "note": "the ten escapes as character constants in a table"},
              {"source": "unsigned char c;\nvoid main() { c = '\\a'; }\n", "args": ["-O0"], "expect": {"panic": False, "must_compile": True, "stdout_contains": "LDA #7"}, "note": "'\\a' in an expression"}]
     from . import u_strscan, u_tablelit
-    return [("literal-extent", ["C09"], u_strscan.candidates(None)), ("literal-in-a-table", ["C09"], u_tablelit.candidates(None)), ("character-constants", ["C09"], chars), ("macro-forms", ["C08", "C07"], macros), ("constant-destinations-rejected", ["C13", "C01"], rejected), ("error-locations", ["C06"], loc), ("error-locations-inside-a-statement", ["C06"], multi), ("no-panic", ["C16"], nopanic)]
+    # recorded known finding: user labels share the name space of the labels the generator and the branch repair make up
+    nodup = lambda lab: r"\A(?![\s\S]*\n%s\n[\s\S]*\n%s\n)" % (lab.replace(".", r"\."), lab.replace(".", r"\."))
+    userlab = [{"source": "char x;\nvoid main() { if (x) { X = 3; } goto ifend1; X = 2; ifend1: X = 1; }\n", "args": ["-O0"], "expect": {"panic": False, "stdout_matches": nodup(".ifend1")}, "note": "a user label named ifend1 next to an if"},
+               {"source": "char x;\nvoid main() { do { %s if (x) goto fix1; X = 2; fix1: X = 1; } while (Y); }\n" % " ".join("csleep(2);" for _ in range(130)), "args": ["-O0"],
+                "expect": {"panic": False, "stdout_matches": nodup(".fix1")}, "note": "a user label named fix1 in a function where a far branch is repaired"}]
+    return [("kf-user-label-named-like-a-generated-label", ["C13"], userlab), ("literal-extent", ["C09"], u_strscan.candidates(None)), ("literal-in-a-table", ["C09"], u_tablelit.candidates(None)), ("character-constants", ["C09"], chars), ("macro-forms", ["C08", "C07"], macros), ("constant-destinations-rejected", ["C13", "C01"], rejected), ("error-locations", ["C06"], loc), ("error-locations-inside-a-statement", ["C06"], multi), ("no-panic", ["C16"], nopanic)]
 
 
 def build(repo):
